@@ -564,7 +564,9 @@ func runC11Lin(t *testing.T, c simrt.Chooser, o Opts) *Out {
 	var hist []porcupine.Operation
 	var seq int64
 	done := false
-	res := simrt.Execute(t, simrt.Config{Chooser: c, Trace: o.Trace, MaxSteps: 200_000}, nil, func(r *simrt.Run) {
+	// preemption between the statements of the critical sections in most runs: readers share the lock
+	pm := p.pick("preemptm", 0, 2, 3, 5, 16)
+	res := simrt.Execute(t, simrt.Config{Chooser: c, Trace: o.Trace, MaxSteps: 200_000, PreemptM: pm}, nil, func(r *simrt.Run) {
 		cache := arp.NewCache()
 		var wg simrt.WaitGroup
 		for cl := range plan {
